@@ -149,6 +149,9 @@ func newRdWorld() *rdWorld {
 			srv.Listener.Close()
 			srv.Listener = ln
 		}
+		// every case builds a client of its own; connections kept alive for clients that are gone would pile
+		// up (tens of thousands of cases in the thorough tier exhausted the descriptors): idle ones are dropped
+		srv.Config.IdleTimeout = time.Second
 		if scheme == "https" {
 			srv.StartTLS()
 		} else {
